@@ -42,6 +42,7 @@ fn main() {
             let code = match id.as_str() {
                 "C20" => rnv::c20::main(&ctx),
                 "C02" => rnv::c02::main(&ctx, rnv::logmodel::Profile::Durability),
+                "C05" => rnv::c05::main(&ctx),
                 "C03" => rnv::c02::main(&ctx, rnv::logmodel::Profile::Truncation),
                 _ => {
                     eprintln!("unknown property {}", id);
